@@ -27,6 +27,12 @@ CHECKS = {
     text='Machine-checked proof about the executable model of units.cpp (updateUnitMultiplier, updateUnitsMap, compatible, scalingFactor, equivalent) over exact rationals: compatible holds exactly when both units are defined and have the same exponent of every base dimension, hence is an equivalence relation, is invariant under permutation of unit children and indirection; factor(a,b)·factor(b,a)=1 and factor(a,c)=factor(a,b)·factor(b,c) (as sums of logs), factor undefined (0.0) for incompatible, undefined or null units; equivalent iff compatible with factor 1; the code multiplier equals the specification scale whenever prefixes/multipliers sit on children of exponent 1, with a kernel-checked witness that the hypothesis is needed.  Tie: standard-unit and prefix tables printed by a program including utilities.h and re-checked by decide; generated acyclic unit environments (shuffled insertion order, imported aliases) with all operand pairs compared exactly (multipliers as exact fractions) and an independent exact-fraction reference for compatibility.',
     note='Trusted: Lean kernel; hx_units.cpp and driver; table extractor.  std::map comparison modelled by pointwise equality of lookup functions; floating-point rounding (areEqual, pow) not modelled - inputs chosen so double arithmetic is exact; importing a user base unit, the validator hint multiplier and the analyser copy of the units arithmetic are not modelled; cyclic units belong to C01/C04.',
     design='4 C08'),
+ 'C10': dict(
+    engine='equals',
+    technique='Lean 4 proof: greedy one-to-one matching is sound and complete against an equivalence relation; doEquals chain = isomorphism up to child order at every level (iff), hence equivalence relation, count- and attribute-sensitive (cancellation lemma); current tree characterised on uniform-variable-count trees with kernel-checked refutations; differential run on generated entities',
+    text='Machine-checked proof about the value-level model of the doEquals chain (Entity, NamedEntity, ImportedEntity, ImportSource, Units, Variable, Reset, ComponentEntity, Component, Model, equalEntities): for units, variables and resets equals is exactly equality of every covered attribute with children compared up to order; for components and models with a size test on every child kind (Fixed_sizeTest) equals holds iff the two trees are isomorphic up to child order at every depth, so it is reflexive, symmetric, transitive, order-insensitive, false on differing child counts and false in both directions after any single covered alteration (cancellation lemma).  For the current tree (variables matched without a size test, pinned by Equality.parseMath) the same is proved on trees with a uniform variable count and refuted by kernel-evaluated witnesses otherwise (known finding).  Tie: generated entities of all five kinds against the real equals() in both directions on copies, child-order permutations at every level, single-site mutations at any depth and permutation triples.',
+    note='Trusted: Lean kernel; hx_equals.cpp/hx_entity.h and the driver; generators and pair oracle.  areNearlyEqual 1-ulp band abstracted to token equality; parents/equivalences outside equality by design; one known finding (variable count), attributed only when implementation = current model and the Fixed_sizeTest model satisfies the oracle.',
+    design='4 C10'),
 }
 
 def manifest():
@@ -55,7 +61,8 @@ def manifest():
                    enable='each check configures /repo into a scratch dir with -DCMAKE_CXX_FLAGS=-DLIBCELLML_VERIF (vlib/common.py: build_lib) and links harness/hx_*.cpp against the static library',
                    baseline_off_cmd='python3 tools/baseline_off.py',
                    source_commits=hooks['source_commits'], add_only=True),
-        engines=[dict(name='units', path='harness/hx_units.cpp + lean/Cellml/Engine/Units.lean', serves_properties=['C08'], kind_free_text='differential: real Units::compatible/scalingFactor/equivalent/updateUnitMultiplier vs exact-rational Lean model'),
+        engines=[dict(name='equals', path='harness/hx_equals.cpp + hx_entity.h + lean/Cellml/Engine/Equals.lean', serves_properties=['C10'], kind_free_text='differential: real equals() vs value-level Lean model on generated pairs'),
+                 dict(name='units', path='harness/hx_units.cpp + lean/Cellml/Engine/Units.lean', serves_properties=['C08'], kind_free_text='differential: real Units::compatible/scalingFactor/equivalent/updateUnitMultiplier vs exact-rational Lean model'),
                  dict(name='equiv', path='harness/hx_equiv.cpp + lean/Cellml/Engine/Equiv.lean', serves_properties=['C18'], kind_free_text='differential: real equivalence queries/cache key vs Lean model; arena placement of objects'),
                  dict(name='logger', path='harness/hx_logger.cpp + lean/Cellml/Engine/Logger.lean', serves_properties=['C15'], kind_free_text='trace replay: hook-traced logger operations of real service calls vs Lean logger model'),
                  dict(name='num', path='harness/hx_num.cpp + lean/Cellml/Engine/Num.lean', serves_properties=['C16'], kind_free_text='differential: real recognisers vs Lean model, exhaustive short strings')],
